@@ -337,6 +337,13 @@ class C03(CoreCheck):
     def nontrivial(self, case, mo):
         return self.count(mo, r"\| Cf") >= 2
 
+    def sibling_stages(self):
+        # iv_fd_epoll.c decodes a batch that may also hold the cross-thread kick of iv_event: user event handlers must not
+        # run between the kernel report and the decoding of later entries (they may unregister / reuse descriptors of the
+        # same batch).  The multi-threaded C08 machinery produces such batches (event handlers that unregister and free).
+        import c08
+        return [("C08", c08.C08)]
+
     def gen_cases(self, ctx, rng, n):
         cases = CoreCheck.gen_cases(self, ctx, rng, n)
         # struct reuse WITHOUT re-initialisation: a descriptor that is queued in the current batch is
@@ -378,7 +385,8 @@ class C03(CoreCheck):
 class C04(CoreCheck):
     pid = "C04"
     leaf = True
-    codes = [(400, 500), (102, 103), (1103, 1104)]
+    # 605: due timers are dispatched before the next wait / before iv_main returns (theorem C04_due_timers_run)
+    codes = [(400, 500), (102, 103), (1103, 1104), (605, 606)]
     profiles = ["timer", "timer", "mixed"]
     standing = 0.5
     rule = ("past/zero/equal/far expiries x descriptor wake-ups that make the same deadline recur (kernel-timer path engages after 5) x "
@@ -458,7 +466,8 @@ class C07(CoreCheck):
     pid = "C07"
     # 403-405 / 602 / 604 / 901-902: "blocks in the kernel only when nothing is due" for timers, tasks and raw events
     # (theorem C07_blocks_only_when_nothing_due)
-    codes = [(700, 800), (1101, 1104), (403, 406), (602, 603), (604, 605), (901, 903)]
+    # 603: a task runs at most once per iteration (theorem C07_task_chains_yield)
+    codes = [(700, 800), (1101, 1104), (403, 406), (602, 604), (604, 605), (901, 903)]
     profiles = ["quit", "quit", "mixed", "event"]
     with_faults = 0.35
     rule = ("programs over all object kinds with iv_quit anywhere, failing iv_fd_register_try (closed descriptor) and failing "
@@ -483,6 +492,21 @@ class C07(CoreCheck):
                     "Hf0:" + "/".join(hf), "He0:" + rng.choice(["ep0/ep0/ep0/-", "ep0/-", "ep0 rp0/-", "kr0/-"]),
                     "Hr0:" + rng.choice(["-", "rp0/-", "ep0/-"]), "Hk0:" + rng.choice(["-", "kr0/-", "ep0/-"]),
                     "Ht0:eu0 ru0 fu0"]
+            cases.append(";".join(secs))
+        # continuation chains: a task handler schedules its next slice through a FRESHLY initialised task object (kx = free +
+        # IV_TASK_INIT, kr = register) or by re-registering itself, and calls iv_quit at some slice: every slice is one
+        # loop iteration (quit test + kernel poll in between), iv_main returns right after the quitting slice
+        for _ in range(max(10, n // 12)):
+            be = rng.choice(self.backends)
+            k = rng.randint(2, 6)
+            qat = rng.randint(1, k)
+            step = rng.choice(["kx0 kr0", "kx0 kr0", "kr0", "kx1 kr1"])
+            lists = [(step + (" q" if i + 1 == qat else "")) for i in range(k)] + ["-"]
+            secs = ["B" + be, "M%d" % rng.choice([12, 20]), "S kr0" + rng.choice(["", " tr0+50000000", " fh0i0 fr0 ks0=i"]),
+                    "Hk0:" + "/".join(lists)]
+            if "kr1" in step:
+                secs.append("Hk1:" + rng.choice(["kx0 kr0/-", "kx1 kr1 q/-", "-"]))
+            secs += ["Ht0:q", "Hf0:ks0="]
             cases.append(";".join(secs))
         return cases
 
@@ -551,7 +575,69 @@ class C09(CoreCheck):
                 secs.append("Ht0:-")
             secs.append("Hr0:" + rng.choice(["-", "-/ru0", "rp0/-"]))
             cases.append(";".join(secs))
+        # bursts beyond a pipe buffer on EVERY run (also the quick tier): the extracted model is too slow for them
+        # (minutes), so these cases run the implementation and the Coq monitors on its trace only (no trace equality):
+        # pseudo-cases "BIGBURST <scenario>"
+        for _ in range(4 if ctx.tier == "quick" else 12):
+            be = rng.choice(self.backends)
+            fl = rng.choice([["noeventfd"], ["noeventfd"], ["noeventfd"], ["noeventfd2"]])
+            burst = rng.choice([65535, 65536, 65537, 70000, 131073])
+            secs = ["B" + be, "X" + ",".join(fl), "M6"]
+            posts = " ".join(["rp0"] * burst)
+            if rng.random() < 0.5:
+                secs.append("S rr0 " + posts)
+            else:
+                secs += ["S rr0 tr0+1000000000", "W1:" + posts, "Ht0:-"]
+            secs.append("Hr0:" + rng.choice(["-", "-/ru0", "rp0/-", "rp0 rp0/ru0"]))
+            cases.append("BIGBURST " + ";".join(secs))
         return cases
+
+    def correspond(self, ctx, cases):
+        import runner
+        small = [i for i, c in enumerate(cases) if not c.startswith("BIGBURST ")]
+        big = [i for i, c in enumerate(cases) if c.startswith("BIGBURST ")]
+        s0 = CoreCheck.correspond(self, ctx, [cases[i] for i in small])
+        n = len(cases)
+        st = {"n": n, "div": [], "crashes": [], "monfail": [], "nontrivial": s0["nontrivial"], "mres": [("", None)] * n,
+              "ires": [("", None)] * n, "mon": ["OK"] * n, "monfail_other_properties": s0.get("monfail_other_properties", 0)}
+        for key in ("div", "crashes", "monfail"):
+            st[key] += [(small[j], why) for j, why in s0[key]]
+        for j, i in enumerate(small):
+            st["mres"][i] = s0["mres"][j]
+            st["ires"][i] = s0["ires"][j]
+            if s0["mon"] is not None:
+                st["mon"][i] = s0["mon"][j]
+        if big:
+            scen = [cases[i][9:] for i in big]
+            ires = runner.run_cases_sharded(self.impl_cmd(ctx), scen, timeout=self.timeout(ctx), env=dict(runner.ASAN_ENV))
+            mon = runner.run_monitor(self.monitor_cmd(ctx), scen, [r[0] or "" for r in ires], ctx.work)
+            for i, (io, ierr), v in zip(big, ires, mon):
+                st["ires"][i] = (io, ierr)
+                st["mres"][i] = ("(burst beyond a pipe buffer: implementation + Coq monitors only, no model trace)", None)
+                st["mon"][i] = v
+                if ierr is not None or not io:
+                    st["crashes"].append((i, ierr or "no output (the scenario did not finish: a post blocked or spun?)"))
+                elif " | CRASH" in io:
+                    st["crashes"].append((i, io.rsplit(" | ", 1)[-1][:600]))
+                elif not v.startswith("OK"):
+                    st["monfail"].append((i, v + " (monitor clauses on the implementation trace of a big burst)"))
+                elif " | Cr0" in io:
+                    st["nontrivial"] += 1
+        for key in ("div", "crashes", "monfail"):
+            st[key].sort(key=lambda x: x[0])
+        return st
+
+    def shrink(self, ctx, case):
+        # a big burst is already a minimal description (one run-length segment); a hanging variant costs 20 s per try
+        return case if case.startswith("BIGBURST ") else CoreCheck.shrink(self, ctx, case)
+
+    def widen(self, ctx, case):
+        return [] if case.startswith("BIGBURST ") else CoreCheck.widen(self, ctx, case)
+
+    def distribution(self, cases):
+        d = CoreCheck.distribution(self, [c for c in cases if not c.startswith("BIGBURST ")])
+        d["bursts_beyond_a_pipe_buffer_implementation_and_monitors_only"] = sum(1 for c in cases if c.startswith("BIGBURST "))
+        return d
 
 
 class C18(CoreCheck):
